@@ -112,14 +112,15 @@ public:
         }
         worker_done();
     }
-    // sequential model of the storage set; returns false if the recorded status is impossible
-    static bool apply(const Rec& r, std::set<std::string>& m) {
+    // sequential model: storage name -> keys stored in it; returns false if the recorded status is impossible
+    using SModel = std::map<std::string, std::set<std::string>>;
+    static bool apply(const Rec& r, SModel& m) {
         bool ex = m.count(r.op.name) != 0;
         switch (r.op.k) {
             case CREATE:
                 if (ex) return r.st != status::OK;
                 if (r.st != status::OK) return false;
-                m.insert(r.op.name);
+                m[r.op.name] = {};
                 return true;
             case DELETE:
                 if (!ex) return r.st != status::OK;
@@ -127,11 +128,18 @@ public:
                 m.erase(r.op.name);
                 return true;
             case FIND: return ex == (r.st == status::OK);
-            case PUTN: return ex ? r.st == status::OK : r.st == status::WARN_STORAGE_NOT_EXIST;
-            case GETN: return ex ? r.st == status::OK : r.st == status::WARN_STORAGE_NOT_EXIST;
+            case PUTN:
+                if (!ex) return r.st == status::WARN_STORAGE_NOT_EXIST;
+                if (r.st != status::OK) return false;
+                m[r.op.name].insert("k2");
+                return true;
+            case GETN:
+                if (!ex) return r.st == status::WARN_STORAGE_NOT_EXIST;
+                return m[r.op.name].count("k") != 0 ? r.st == status::OK : r.st == status::WARN_NOT_EXIST;
             case LIST: {
                 // the listing is the storage set of one instant, in ascending order; WARN_NOT_EXIST iff that set is empty
-                std::vector<std::string> want(m.begin(), m.end());
+                std::vector<std::string> want;
+                for (auto& kv : m) want.push_back(kv.first);
                 if (r.names != want) return false;
                 return m.empty() ? r.st == status::WARN_NOT_EXIST : r.st == status::OK;
             }
@@ -160,6 +168,15 @@ public:
         list_storages(l);
         std::set<std::string> final_set;
         for (auto& e : l) final_set.insert(e.first);
+        // ... and what each of them holds (a key acknowledged by a put by name must be there, nothing else may be)
+        SModel final_content;
+        for (auto& e : l) {
+            auto& keys = final_content[e.first];
+            std::vector<std::tuple<std::string, char*, std::size_t>> tl;
+            scan<char>(std::string_view(e.first), "", scan_endpoint::INF, "", scan_endpoint::INF, tl);
+            for (auto& t : tl) keys.insert(std::get<0>(t));
+            dig << "/" << keys.size();
+        }
         dig << "#" << final_set.size();
         r.outcome = dig.str();
         auto fail = [&](const std::string& s, const std::string& d) {
@@ -195,8 +212,8 @@ public:
         {
             size_t n = all.size();
             std::vector<char> used(n, 0);
-            std::function<bool(std::set<std::string>&, size_t)> rec = [&](std::set<std::string>& m, size_t done) -> bool {
-                if (done == n) return m == final_set;
+            std::function<bool(SModel&, size_t)> rec = [&](SModel& m, size_t done) -> bool {
+                if (done == n) return m == final_content;
                 for (size_t i = 0; i < n; ++i) {
                     if (used[i] != 0) continue;
                     bool minimal = true;
@@ -204,7 +221,7 @@ public:
                         if (j != i && used[j] == 0 && all[j]->ret < all[i]->call) minimal = false;
                     }
                     if (!minimal) continue;
-                    std::set<std::string> m2 = m;
+                    SModel m2 = m;
                     if (!apply(*all[i], m2)) continue;
                     used[i] = 1;
                     if (rec(m2, done + 1)) return true;
@@ -212,11 +229,16 @@ public:
                 }
                 return false;
             };
-            std::set<std::string> m0 = init;
+            SModel m0;
+            for (auto& nm : init) m0[nm] = {"k"};
             if (!rec(m0, 0)) {
                 std::string fs;
-                for (auto& s : final_set) fs += ykc::hex(s) + " ";
-                fail("ddl:not_linearizable", "no sequential order of the storage operations explains the statuses and the final storage set {" + fs + "}");
+                for (auto& kv : final_content) {
+                    fs += ykc::hex(kv.first) + ":[";
+                    for (auto& k : kv.second) fs += k + " ";
+                    fs += "] ";
+                }
+                fail("ddl:not_linearizable", "no sequential order of the storage and data operations explains the statuses and the final storages with their keys {" + fs + "}");
             }
         }
         // structure of the storages tree
@@ -258,6 +280,13 @@ inline void scenarios(std::vector<hm::Scenario>& out) {
             {{}, {{{CREATE, a}, {DELETE, a}}, {{CREATE, a}}}, false, 2, 2},
             {{a}, {{{DELETE, a}, {CREATE, a}}, {{DELETE, a}}}, false, 2, 2},
             {{}, {{{CREATE, a}}, {{CREATE, a}}, {{FIND, a}}}, false, 2, 2},
+            // data operations by name next to a create of that name: a put that was acknowledged (by the loser of a create/create race,
+            // or by a thread that only uses the name) must be in the storage afterwards, an unknown name answers WARN_STORAGE_NOT_EXIST
+            {{}, {{{CREATE, a}}, {{CREATE, a}, {PUTN, a}}}, true, 2, 3},
+            {{}, {{{CREATE, a}}, {{PUTN, a}}}, true, 2, 3},
+            {{}, {{{CREATE, l9}}, {{CREATE, l9}, {PUTN, l9}}}, false, 2, 2},
+            {{}, {{{CREATE, a}}, {{GETN, a}}}, true, 2, 3},
+            {{b}, {{{CREATE, a}}, {{PUTN, a}, {GETN, b}}}, false, 2, 2},
             // a listing racing ONE create or delete: it is the sorted storage set before or after that operation (a listing is a
             // scan, not a snapshot: against two changes it may legitimately combine them, so only one change is raced)
             {{}, {{{CREATE, a}}, {{LIST, ""}}}, true, 2, 3},
